@@ -107,6 +107,51 @@ func ops() []op {
 			b.LastCommit = &types.Commit{BlockID: b.LastCommit.BlockID, Precommits: pcs}
 			b.LastCommitHash = b.LastCommit.Hash()
 		}, 0},
+		{"last-commit-one-vote-in-every-slot", 2, func(t *rapid.T, b *types.Block, n *consim.Net) {
+			// ONE genuine precommit copied into every slot: every copy is correctly signed (by its one signer), only one
+			// validator stands behind the "commit".  The validator index and address inside a vote are not signed.
+			var one *types.Vote
+			for _, pc := range b.LastCommit.Precommits {
+				if pc != nil {
+					one = pc
+					break
+				}
+			}
+			if one == nil {
+				return
+			}
+			pcs := make([]*types.Vote, len(b.LastCommit.Precommits))
+			for i := range pcs {
+				c := *one
+				pcs[i] = &c
+			}
+			b.LastCommit = &types.Commit{BlockID: b.LastCommit.BlockID, Precommits: pcs}
+			b.LastCommitHash = b.LastCommit.Hash()
+		}, 0},
+		{"last-commit-one-vote-relabelled-in-every-slot", 2, func(t *rapid.T, b *types.Block, n *consim.Net) {
+			// the same, with the unsigned index/address fields of each copy set to the slot's validator
+			var one *types.Vote
+			for _, pc := range b.LastCommit.Precommits {
+				if pc != nil {
+					one = pc
+					break
+				}
+			}
+			if one == nil {
+				return
+			}
+			pcs := make([]*types.Vote, len(b.LastCommit.Precommits))
+			for i := range pcs {
+				c := *one
+				c.ValidatorIndex = i
+				if addr, v := n.ValSet.GetByIndex(i); v != nil {
+					c.ValidatorAddress = addr
+				}
+				pcs[i] = &c
+			}
+			b.LastCommit = &types.Commit{BlockID: b.LastCommit.BlockID, Precommits: pcs}
+			b.LastCommitHash = b.LastCommit.Hash()
+		}, 0},
 		{"last-commit-bad-signature", 2, func(t *rapid.T, b *types.Block, n *consim.Net) {
 			pcs := append([]*types.Vote(nil), b.LastCommit.Precommits...)
 			for i := range pcs {
